@@ -43,7 +43,10 @@ def ledger_flow(rng, tmp, legacy, alter, wrong_root=False, **kw):
     import admin.unlock as unlock
     from comm.platform import Platform
     import types
+    ud = kw.pop("ud", UD)
+    reattest = kw.pop("reattest", False)
     dev = genuine.GenuineLedger(rng, legacy_signer=legacy, alter=alter, **kw)
+    dev.expected_ud = ud
     world = env.World(device=dev)
     env.install_transport(world)
     Platform.set("Ledger")
@@ -65,11 +68,26 @@ def ledger_flow(rng, tmp, legacy, alter, wrong_root=False, **kw):
             return "onboard", err, out, dev
         dev.mode, dev.unlocked = 2, False         # the operator re-plugs the device
         opt = admincmd.Opt(pin="abcd1234", output_file_path=att2, attestation_certificate_file_path=att1,
-                           attestation_ud_source=UD)
+                           attestation_ud_source=ud)
         err, out = vc.run_cmd(latt.do_attestation, opt)
         if err:
             return "attestation", err, out, dev
         dev.mode, dev.unlocked = 2, False
+        if reattest:
+            # later the operator attests again, starting from the certificate of the previous attestation,
+            # with a new UD value and after the blockchain state has moved on
+            ud2 = gen.rbytes(rng, 32).hex()
+            dev.best_block = gen.rbytes(rng, 32)
+            dev.timestamp += 1000
+            att3 = os.path.join(tmp, "attestation-2.json")
+            opt = admincmd.Opt(pin="abcd1234", output_file_path=att3, attestation_certificate_file_path=att2,
+                               attestation_ud_source=ud2)
+            err, out = vc.run_cmd(latt.do_attestation, opt)
+            if err:
+                return "attestation", err, out, dev
+            dev.expected_ud = ud2
+            att2 = att3
+            dev.mode, dev.unlocked = 2, False
         opt = admincmd.Opt(pin="abcd1234", output_file_path=keys_txt)
         err, out = vc.run_cmd(pubkeys.do_get_pubkeys, opt)
         if err:
@@ -164,7 +182,12 @@ def run(ctx):
         # signer message in 1..5 pages
         for legacy, kw in ((False, {}), (True, {}), (False, dict(ui_pages=255, pages=255)),
                            (False, dict(ui_pages=60, pages=64)), (False, dict(ui_pages=37, pages=43)),
-                           (False, dict(ui_pages=28, pages=26)), (True, dict(ui_pages=28))):
+                           (False, dict(ui_pages=28, pages=26)), (True, dict(ui_pages=28)),
+                           # UD values that begin with ASCII digits / letters (they follow the text headers)
+                           (False, dict(ud="37" + gen.rbytes(rng, 31).hex())),
+                           (True, dict(ud="3039" + gen.rbytes(rng, 30).hex())),
+                           (False, dict(ud=gen.rbytes(rng, 32).hex())),
+                           (False, dict(reattest=True)), (True, dict(reattest=True))):
             stage, err, out, dev = ledger_flow(rng, tmp, legacy, None, **kw)
             note(res, stage)
             if stage != "ok":
@@ -172,7 +195,7 @@ def run(ctx):
                                           "(legacy=%s, page sizes %r) failed at %s: %s" % (legacy, kw, stage, err)})
             else:
                 obs = vc.parse_ledger_stdout(out)
-                exp_ud = bytes.fromhex(UD)
+                exp_ud = bytes.fromhex(dev.expected_ud)
                 bad = []
                 if obs.get("ud") != exp_ud:
                     bad.append("UD value")
@@ -192,6 +215,8 @@ def run(ctx):
                 if len(res["samples"]) < 2:
                     res["samples"].append({"flow": "ledger", "legacy": legacy, "stage": stage})
             alts = LEDGER_ALTER if (ctx["tier"] == "thorough" or i == 0) else LEDGER_ALTER[:3]
+            if kw and ctx["tier"] == "quick":
+                alts = []            # alterations once per framing in the quick tier
             for what in alts:
                 alter = {what: (rng.randrange(1000), rng.randrange(8))}
                 stage, err, out, dev = ledger_flow(rng, tmp, legacy, alter)
